@@ -445,23 +445,27 @@ def run_hook_xmm(h, rng):
 
 
 def run_hook_vec(h, rng):
-    """mcount_entry / mcount_exit called with chosen whole vector registers (the widest the CPU has) while the libc
-    stand-in overwrites them and ends with vzeroupper -> [(level, hook, before, after)]"""
+    """mcount_entry / mcount_exit called with chosen whole vector registers (the widest the CPU has) and a chosen MXCSR
+    while the libc stand-in overwrites them and ends with vzeroupper -> [(level, hook, before, after, csr_before, csr_after)]"""
     def words(regs):
         return " ".join("%x" % w for r in regs for w in r)
+    def csr():
+        return 0x1f80 | (rng.randrange(4) << 13) | rng.randrange(0x40) | (0x8000 if rng.random() < 0.3 else 0)
     b = [gen_xmm(rng, "rnd")[0] for _ in range(4)]
-    lines = ["P 1 100", "VE 0 1 " + words(b[0]), "P 2 101", "VE 1 2 " + words(b[1]), "VR 2 " + words(b[2]), "VR 1 " + words(b[3])]
+    cs = [csr() for _ in range(4)]
+    lines = ["P 1 100", "VE 0 1 %s %x" % (words(b[0]), cs[0]), "P 2 101", "VE 1 2 %s %x" % (words(b[1]), cs[1]),
+             "VR 2 %s %x" % (words(b[2]), cs[2]), "VR 1 %s %x" % (words(b[3]), cs[3])]
     rc, out, err = h.run(lines, 4)
     res = []
-    for hook, bef, line in (("mcount_entry", b[0], out[1]), ("mcount_entry", b[1], out[3]),
-                            ("mcount_exit", b[2], out[4]), ("mcount_exit", b[3], out[5])):
+    for hook, bef, c0, line in (("mcount_entry", b[0], cs[0], out[1]), ("mcount_entry", b[1], cs[1], out[3]),
+                                ("mcount_exit", b[2], cs[2], out[4]), ("mcount_exit", b[3], cs[3], out[5])):
         k = line.partition(" | ")[0].split()
         level = int(k[1])
-        vals = [int(x, 16) for x in k[-128:]]
+        vals = [int(x, 16) for x in k[-129:-1]]
         nvis = [2, 4, 8][level]
         # words that do not exist on this machine are not compared: present them as the model computes them
         bef = [tuple(list(r[:nvis]) + [0] * (8 - nvis)) for r in bef]
-        res.append((level, hook, bef, [tuple(vals[8 * i:8 * i + 8]) for i in range(16)]))
+        res.append((level, hook, bef, [tuple(vals[8 * i:8 * i + 8]) for i in range(16)], c0, int(k[-1], 16)))
     return res
 
 
@@ -495,8 +499,8 @@ def evaluate_chunk(ctx, scases, xcases, name, hcases=(), tcases=(), ecases=(), d
     defs += "Local Open Scope nat_scope.\nDefinition dcases : list sched_case := [\n%s\n].\nLocal Open Scope Z_scope.\n" % ";\n".join(
         coq_sched_case(c) for c in dcases)
     defs += "Definition ycases : list hook_vec_case := [\n%s\n].\n" % ";\n".join(
-        '{| hv_level := %d%%nat; hv_hook := "%s"%%string; hv_before := %s; hv_after := %s |}' % (lv, hk, coq_vregs(b), coq_vregs(a))
-        for (lv, hk, b, a) in ycases)
+        '{| hv_level := %d%%nat; hv_hook := "%s"%%string; hv_before := %s; hv_after := %s; hv_csr_before := %d; hv_csr_after := %d |}'
+        % (lv, hk, coq_vregs(b), coq_vregs(a), c0, c1) for (lv, hk, b, a, c0, c1) in ycases)
     res = coq.run_cases(ctx, name, PRE, defs, [
         ("y_mismatch", "bad_indices hook_vec_agrees ycases 0"),
         ("y_violations", "bad_indices hook_vec_ok ycases 0"),
@@ -554,6 +558,8 @@ def evaluate(ctx, scases, xcases, name="cases", chunk=50, hcases=(), tcases=(), 
 # ================================================================ objdump monitor
 ALLOWED_SITES = [
     (r"^(mcount_return|dynamic_return|plthook_return|__xray_exit)$", r"^movdqu\s+(%xmm0,0x10\(%rsp\)|0x10\(%rsp\),%xmm0)$"),
+    (r"^mcount_save_arch_context$", r"^stmxcsr\s+(0x[0-9a-f]+)?\(%r\w+\)$"),
+    (r"^mcount_restore_arch_context$", r"^ldmxcsr\s+(0x[0-9a-f]+)?\(%r\w+\)$"),
     (r"^mcount_save_arch_context(_sse|_avx|_avx512)?(\.\w+)*$", r"^(movdqu\s+%xmm|vmovdqu\s+%ymm|vmovdqu64\s+%zmm)[0-7],(0x[0-9a-f]+)?\(%r\w+\)$"),
     (r"^mcount_restore_arch_context(_sse|_avx|_avx512)?(\.\w+)*$", r"^(movdqu\s+(0x[0-9a-f]+)?\(%r\w+\),%xmm|vmovdqu\s+(0x[0-9a-f]+)?\(%r\w+\),%ymm|vmovdqu64\s+(0x[0-9a-f]+)?\(%r\w+\),%zmm)[0-7]$"),
     (r"^mcount_(get_register_arg|arch_get_arg|get_struct_arg)(\.\w+)*$", r"^movs[sd]\s+%xmm[0-7],[^%]*\(%r\w+\)$"),
@@ -1014,7 +1020,7 @@ def run(ctx):
     for i in range(ctx.n(4, 30)):
         for hc in run_hook_vec(h, ctx.rng):
             ycases.append(hc)
-            ctx.case(key=("hookvec", hc[1], tuple(hc[2])), tags=["hookvec:%s:level=%d" % (hc[1], hc[0])])
+            ctx.case(key=("hookvec", hc[1], tuple(hc[2])), tags=["hookvec:%s:level=%d" % (hc[1], hc[0]), "mxcsr:rc=%d" % ((hc[4] >> 13) & 3)])
     tcases = []
     for i in range(ctx.n(18, 300)):
         tree = gen_tree(ctx.rng, ["tail", "pg", "plttail", "plt", "deep"][i % 5], maxd=4, budget=10)
@@ -1073,14 +1079,14 @@ def verdict(ctx, scases, xcases, res, hcases=(), tcases=(), ecases=(), dcases=()
     if res is None:
         return
     for i in res.get("y_violations", [])[:3]:
-        lv, hk, b, a = ycases[i]
-        ctx.violation("C01 violated: %s does not give back every bit of vector registers 0-7 (%s) when libc code it reaches "
-                      "uses the vector registers and ends with vzeroupper (vector arguments / return values of the traced "
-                      "function)" % (hk, ["xmm", "ymm", "zmm"][lv]),
+        lv, hk, b, a, c0, c1 = ycases[i]
+        ctx.violation("C01 violated: %s does not give back every bit of vector registers 0-7 (%s) or MXCSR (%#x -> %#x) when libc "
+                      "code it reaches uses the vector unit and ends with vzeroupper (vector arguments / return values / "
+                      "floating-point environment of the traced function)" % (hk, ["xmm", "ymm", "zmm"][lv], c0, c1),
                       {"kind": "hookxmm", "hook": hk, "before": [list(map(hex, p)) for p in b],
                        "after": [list(map(hex, p)) for p in a]}, True)
     if res.get("y_mismatch") and not res.get("y_violations"):
-        lv, hk, b, a = ycases[res["y_mismatch"][0]]
+        lv, hk, b, a, c0, c1 = ycases[res["y_mismatch"][0]]
         ctx.violation("hook-call vector contract (Model.hook_call_vec with the generated wrappers and pairs) and the real %s disagree" % hk,
                       {"kind": "hookxmm", "hook": hk, "before": [list(map(hex, p)) for p in b],
                        "after": [list(map(hex, p)) for p in a]}, False)
